@@ -70,7 +70,11 @@ static std::vector<Misuse> const& table(){
     add("read:ascii-unknown-grid-type", true, st_any, [](TasmanianSparseGrid &g, Rng&, std::string const &tmp){
         g.read(write_file(tmp + "/bad_type.tsg", std::string("TASMANIAN SG ") + TasmanianSparseGrid::getVersion() + "\nWARNING: do not edit this manually\nhexagonal\n2 1\n").c_str()); });
     add("read:ascii-future-version", true, st_any, [](TasmanianSparseGrid &g, Rng &r, std::string const &tmp){
-        g.read(write_file(tmp + "/future.tsg", std::string("TASMANIAN SG ") + (r.coin() ? "99.0" : "8.99") + "\nWARNING: do not edit this manually\nempty\ncanonical\nnonconformal\nunlimited\nstatic\nTASMANIAN SG end\n").c_str()); });
+        int vmaj = TasmanianSparseGrid::getVersionMajor(), vmin = TasmanianSparseGrid::getVersionMinor();
+        std::string fv; // the next minor, a later minor, the next major, a far future version
+        switch(r.range(0, 4)){ case 0: fv = std::to_string(vmaj) + "." + std::to_string(vmin + 1); break; case 1: fv = std::to_string(vmaj) + "." + std::to_string(vmin + r.range(2, 6)); break;
+                               case 2: fv = std::to_string(vmaj + 1) + ".0"; break; case 3: fv = std::to_string(vmaj) + ".99"; break; default: fv = "99.0"; }
+        g.read(write_file(tmp + "/future.tsg", std::string("TASMANIAN SG ") + fv + "\nWARNING: do not edit this manually\nempty\ncanonical\nnonconformal\nunlimited\nstatic\nTASMANIAN SG end\n").c_str()); });
     add("read:ascii-version-before-3", true, st_any, [](TasmanianSparseGrid &g, Rng&, std::string const &tmp){
         g.read(write_file(tmp + "/old.tsg", "TASMANIAN SG 2.0\nWARNING: do not edit this manually\nempty\n").c_str()); });
     add("read:binary-wrong-header", true, st_any, [](TasmanianSparseGrid &g, Rng &r, std::string const&){
